@@ -11,7 +11,7 @@ use mls_rs_core::extension::ExtensionList;
 use mls_rs_core::group::GroupContext;
 use mls_rs_core::protocol_version::ProtocolVersion;
 
-fn vec_of<const N: usize>(a: [u8; N]) -> Vec<u8> {
+pub(crate) fn vec_of<const N: usize>(a: [u8; N]) -> Vec<u8> {
     let mut v = Vec::with_capacity(N);
     let mut i = 0;
     while i < N {
@@ -227,7 +227,7 @@ fn consume_root_case(leaf_count: u32) {
 zstubs! { #[kani::unwind(24)] fn c13_secret_tree_consume_root_2() { consume_root_case(2); } }
 zstubs! { #[kani::unwind(24)] fn c13_secret_tree_consume_root_8() { consume_root_case(8); } }
 
-fn sym_context() -> (GroupContext, Vec<u8>) {
+pub(crate) fn sym_context() -> (GroupContext, Vec<u8>) {
     let version: u16 = kani::any();
     let gid = any_bytes::<2>();
     let epoch: u64 = kani::any();
@@ -473,7 +473,7 @@ zstubs! {
 
 // ------------------------------------------------------------------------- transcript and tags
 
-fn sender_pair(which: u8, idx: u32) -> (mls_rs::verif::wire::Sender, rk::SenderRef) {
+pub(crate) fn sender_pair(which: u8, idx: u32) -> (mls_rs::verif::wire::Sender, rk::SenderRef) {
     use mls_rs::verif::wire::Sender;
     match which {
         0 => (Sender::Member(idx), rk::SenderRef::Member(idx)),
